@@ -106,52 +106,10 @@ def analyse(toks):
             f.l0 = tl[first]
             f.tags = list(tagline.get(tl[first], []))
             # header until body
-            j = i + 2
-            cur_kind = None
-            clause_start = None
-            depth_tokens = []
-            body = None
-            def flush(end):
-                nonlocal clause_start
-                if cur_kind and clause_start is not None and end > clause_start:
-                    txt = " ".join(x.text for x in toks[clause_start:end])
-                    f.clauses.append((cur_kind, tl[clause_start], txt, list(tagline.get(tl[clause_start], []))))
-                clause_start = None
-            while j < n:
-                x = toks[j]
-                if x.text in ("(", "["):
-                    if cur_kind and clause_start is None: clause_start = j
-                    j = match_close(toks, j) + 1
-                    continue
-                if x.text == "{":
-                    # a `{` in clause position is the body unless we are inside a clause expression that
-                    # started (e.g. `match x { .. }`, `if c { .. }`, struct literal) -- those follow a clause start
-                    if cur_kind and clause_start is not None and toks[j - 1].text != ",":
-                        j = match_close(toks, j) + 1
-                        continue
-                    flush(j)
-                    body = j
-                    break
-                if x.text == ";" and cur_kind is None:
-                    break
-                if x.kind == "id" and x.text == "by" and x.src is None and toks[j + 1].text == "(":
-                    flush(j)
-                    f.by_mode = True
-                    cur_kind = None
-                    j = match_close(toks, j + 1) + 1
-                    continue
-                if x.kind == "id" and x.text in CLAUSE_KW and x.src is None:
-                    flush(j)
-                    cur_kind = x.text
-                    j += 1
-                    continue
-                if x.text == "," and cur_kind:
-                    flush(j)
-                    j += 1
-                    continue
-                if cur_kind and clause_start is None:
-                    clause_start = j
-                j += 1
+            hdr, body, by_mode = scan_clauses(toks, i + 2, n, tl, tagline, "")
+            f.clauses += hdr
+            f.by_mode = by_mode
+            j = body if body is not None else _semi(toks, i + 2, n)
             if body is not None:
                 close = match_close(toks, body)
                 f.l1 = tl[close]
@@ -166,33 +124,9 @@ def analyse(toks):
                         k2 = e + 1
                         continue
                     if x.src is None and x.kind == "id" and x.text in ("invariant", "invariant_except_break", "ensures", "decreases"):
-                        kind = "loop-" + x.text
-                        m = k2 + 1
-                        cs = None
-                        while m < close:
-                            y = toks[m]
-                            if y.text in ("(", "["):
-                                if cs is None: cs = m
-                                m = match_close(toks, m) + 1
-                                continue
-                            if y.text == "{" and (cs is None or toks[m - 1].text == ","):
-                                break
-                            if y.text == "{":
-                                m = match_close(toks, m) + 1
-                                continue
-                            if y.kind == "id" and y.text in CLAUSE_KW and y.src is None:
-                                break
-                            if y.text == ",":
-                                if cs is not None:
-                                    f.clauses.append((kind, tl[cs], " ".join(z.text for z in toks[cs:m]), list(tagline.get(tl[cs], []))))
-                                cs = None
-                                m += 1
-                                continue
-                            if cs is None: cs = m
-                            m += 1
-                        if cs is not None and m > cs:
-                            f.clauses.append((kind, tl[cs], " ".join(z.text for z in toks[cs:m]), list(tagline.get(tl[cs], []))))
-                        k2 = m
+                        cl, lb, _ = scan_clauses(toks, k2, close, tl, tagline, "loop-")
+                        f.clauses += cl
+                        k2 = (lb + 1) if lb is not None else k2 + 1
                         continue
                     k2 += 1
                 fns.append(f)
@@ -205,6 +139,82 @@ def analyse(toks):
                 continue
         i += 1
     return fns, tagline, tl
+
+def _semi(toks, j, n):
+    while j < n and toks[j].text not in (";", "{"):
+        if toks[j].text in ("(", "["):
+            j = match_close(toks, j)
+        j += 1
+    return j
+
+def scan_clauses(toks, j, n, tl, tagline, prefix):
+    """walk requires/ensures/invariant/decreases clauses from toks[j] to the `{` that opens the body.
+    returns (clauses, body_index or None, by_mode)"""
+    out = []
+    cur_kind = None
+    cs = None
+    expect_block = 0
+    by_mode = False
+    def flush(end):
+        nonlocal cs
+        if cur_kind and cs is not None and end > cs:
+            out.append((prefix + cur_kind, tl[cs], " ".join(x.text for x in toks[cs:end]), list(tagline.get(tl[cs], []))))
+        cs = None
+    while j < n:
+        x = toks[j]
+        if x.text in ("(", "["):
+            if cur_kind and cs is None: cs = j
+            j = match_close(toks, j) + 1
+            continue
+        if x.text == "{":
+            if cur_kind and expect_block > 0:
+                expect_block -= 1
+                j = match_close(toks, j) + 1
+                if j < n and toks[j].text == "else":
+                    if toks[j + 1].text != "if":
+                        expect_block += 1
+                    j += 1
+                continue
+            flush(j)
+            return out, j, by_mode
+        if x.text == ";":
+            flush(j)
+            return out, None, by_mode
+        if x.kind == "id" and x.text == "by" and x.src is None and toks[j + 1].text == "(":
+            flush(j)
+            by_mode = True
+            cur_kind = None
+            j = match_close(toks, j + 1) + 1
+            continue
+        if x.kind == "id" and x.text in CLAUSE_KW and x.src is None:
+            flush(j)
+            cur_kind = x.text
+            expect_block = 0
+            j += 1
+            continue
+        if x.text == "," and cur_kind:
+            flush(j)
+            j += 1
+            continue
+        if cur_kind and x.kind == "id" and x.text in ("match", "if"):
+            expect_block += 1
+        if cur_kind and cs is None:
+            cs = j
+        j += 1
+    return out, None, by_mode
+
+def fn_all_tags(f, udesc):
+    """every property a function serves: its own tag, the tags of its clauses, and (real exec fns) the unit defaults"""
+    tags = list(f.tags)
+    for c in f.clauses:
+        for t in c[3]:
+            if t not in tags:
+                tags.append(t)
+    if f.real and f.mode == "exec":
+        for t in udesc.get("fn_tags", {}).get(f.qual, udesc.get("fn_tags", {}).get(f.name, udesc.get("default_tags", []))):
+            if t not in tags:
+                tags.append(t)
+    return tags
 
 def fn_at(fns, line):
     best = None
@@ -381,11 +391,7 @@ def _digest(res, out, fns, tagline, lines):
                     tags.append(c)
         via = "clause"
         if not tags and f is not None:
-            if f.tags:
-                tags = list(f.tags); via = "fn"
-            elif f.real and f.mode == "exec":
-                tags = list(udesc.get("fn_tags", {}).get(f.qual, udesc.get("fn_tags", {}).get(f.name, udesc.get("default_tags", []))))
-                via = "default"
+            tags = fn_all_tags(f, udesc); via = "fn"
         ptxt = norm(span_text(lines, p))
         sec = [norm(span_text(lines, s)) for s in spans if not s.get("is_primary") and (s.get("label") or "").startswith("failed")]
         oid = "%s/%s/%s/%s" % (res.unit, f.qual if f else "?", kind, ptxt[:160])
@@ -463,7 +469,7 @@ def obligations_for(res, prop):
     for f in res.fns:
         if f.mode == "spec" or f.external:
             continue
-        ftags = f.tags or (ud.get("fn_tags", {}).get(f.qual, ud.get("fn_tags", {}).get(f.name, ud.get("default_tags", []))) if (f.real and f.mode == "exec") else [])
+        ftags = fn_all_tags(f, ud)
         for kind, line, txt, tags in f.clauses:
             if kind in ("requires", "recommends"):
                 continue
@@ -625,8 +631,7 @@ def write_evidence(prop, tier, seed, results, obligations, n_ob, n_failed, known
             if f.mode == "spec" or f.external:
                 continue
             if f.real and f.mode == "exec":
-                ftags = f.tags or ud.get("fn_tags", {}).get(f.qual, ud.get("fn_tags", {}).get(f.name, ud.get("default_tags", [])))
-                if prop in ftags or any(prop in c[3] for c in f.clauses):
+                if prop in fn_all_tags(f, ud):
                     fn_list.append({"fn": f.qual, "unit": r.unit, "repo": "%s:%s" % (f.src, f.src_line), "contract_clauses": len(f.clauses)})
             elif f.mode == "proof" and (prop in f.tags or any(prop in c[3] for c in f.clauses)):
                 lemmas.append("%s/%s" % (r.unit, f.qual))
